@@ -49,6 +49,22 @@ Theorem fmt_expr_roundtrip :
 Proof. exact (roundtrip F_prql P_prql nbin nun (compat_sound _ _ _ _ fmt_compat)). Qed.
 Print Assumptions fmt_expr_roundtrip.
 
+(* ---- a parameter is never glued to a following range: in the token list of every well-formed tree, at every state, no
+        parameter token stands directly in front of a `..` that binds to the left (the lexer's parameter token takes
+        `.`: `$a..b` is the one parameter `a..b`; repaired by commit 1b7b9df: `($a)..b`, `-($a)..`).  The round-trip
+        theorems are at token level and cannot see this defect: this statement is about the token adjacency itself. *)
+Theorem fmt_param_not_glued_generic : forall F T nb nu, compat F T nb nu = true ->
+  forall e st, wf e = true -> ops_ok nb nu e = true -> glued (fmt F e st) = false.
+Proof. exact (fun F T nb nu H e st => no_glue F T nb nu (compat_sound F T nb nu H) e st). Qed.
+Print Assumptions fmt_param_not_glued_generic.
+
+Theorem fmt_param_not_glued :
+  forall e, wf e = true -> ops_ok nbin nun e = true -> glued (fmt_toks e) = false /\ glued (fmt_annotation_toks e) = false.
+Proof.
+  intros e Hw Ho. split; apply (no_glue F_prql P_prql nbin nun (compat_sound _ _ _ _ fmt_compat)); assumption.
+Qed.
+Print Assumptions fmt_param_not_glued.
+
 (* ---- annotation expressions (`@expr`): Stmt::write raises the context strength to fmt_annotation_ctx, the parser reads
         `expr()`: no call, lambda or aliased expression without parentheses (commit 95d15ad: `@(f x)` was written `@f x`) *)
 Theorem fmt_annotation_ctx_ok : annotation_ctx_ok = true.
@@ -170,6 +186,10 @@ Example ex_lambda_text :
   /\ fmt_text (EFunc [] [ENamed [107] (ECall (idn 103) [idn 121])] (idn 107)) = [102;117;110;99;32;107;58;40;103;32;121;41;32;45;62;32;107]
   /\ render R_prql (fmt_annotation_toks (ECall (idn 102) [idn 120])) = [40;102;32;120;41].
 Proof. vm_compute. repeat split; reflexivity. Qed.
+(* the defect `glued` detects: the tokens of `$a..b` as the formatter wrote them before commit 1b7b9df *)
+Example ex_glued_detects : glued [TA (AParam [97]); TRg true true; TA (AIdent [[98]])] = true
+  /\ glued (fmt_toks (ERng (par_atom 97) (idn 98))) = false.
+Proof. vm_compute. split; reflexivity. Qed.
 Example ex_alias_text : fmt_text (EBin 5 (idn 97) (EAlias [120] (idn 98))) = [97; 32; 43; 32; 40; 120; 32; 61; 32; 98; 41]   (* a + (x = b) *)
   /\ fmt_text (ERng (par_atom 97) (idn 98)) = [40; 36; 97; 41; 46; 46; 98]                                                (* ($a)..b *)
   /\ fmt_text (ERngL (EUn 0 (par_atom 97))) = [45; 40; 36; 97; 41; 46; 46].                                               (* -($a).. *)
